@@ -169,7 +169,7 @@ P("C19",
   assumptions=["inspectors of the data do not allocate (slices and structs of koykov/inspector's testobj; maps excluded)"])
 # ---- additions of the build phase (kept separate so that the texts above stay as reviewed) ----
 PROPS["C01"]["level_text"] += (" Also proved (Proofs/PreprocProofs.v) about Model/Preproc.v, the parser's source clean-up: comments of the form {#...#} are removed and nothing else (no-opener identity, removal equation, unterminated case), line breaks with the white space after them are removed and nothing else (no line feed in the result, identity without line feeds, the line-break-and-indentation equation, idempotence), trimming is an infix, and the whole clean-up only ever deletes bytes (sub-sequence); every run compares Model/Preproc.v with the real cutComments/cutFmt byte for byte on generated sources (hook VerifPreprocess), and parses every source under both keep-format settings.")
-PROPS["C01"]["level_text"] += (" From source bytes (Model/Parser.v, Proofs/ParserModelProofs.v, Proofs/EndToEnd.v; for every table of expressions): a source without tags parses to one raw node with exactly its bytes and renders as itself (C01_static_source_renders_itself), a template without block tags becomes its pieces node for node in source order (C01_flat_template_keeps_order), static text is appended unchanged at every nesting level; every run checks parse(now) src = the real parser's tree on every case, and the clean-up through the regenerated comment/format expressions byte for byte.")
+PROPS["C01"]["level_text"] += (" From source bytes (Model/Parser.v, Proofs/ParserModelProofs.v, Proofs/EndToEnd.v; for every table of expressions): a source without tags parses to one raw node with exactly its bytes and renders as itself (C01_static_source_renders_itself), a template without block tags becomes its pieces node for node in source order (C01_flat_template_keeps_order), static text is appended unchanged at every nesting level; whatever the comment and format expressions of the code are, the clean-up only ever deletes bytes and is the identity on a comment-free source when the format is kept (Proofs/ParserCleanup.v); every run checks parse(now) src = the real parser's tree on every case, and the clean-up through the regenerated comment/format expressions byte for byte.")
 PROPS["C02"]["level_text"] += " Central theorem (Proofs/Refine*.v): for every supported template the interpreter model refines the reference semantics (output, final store, signal); corollaries C02_if_refines, C02_ternary_refines, C02_switch_refines, C02_ifok_refines; C02_branch_by_operands holds for every value of the scratch buffer and error register."
 PROPS["C03"]["level_text"] += " C03_cloop_refines / C03_rloop_refines / C03_interp_refines_ref: loops of the model refine the reference semantics (iterations, separators escaped like text inside bound tags, else iff no iteration, break-depth bookkeeping, the loop variable as a live cell), by induction on fuel and on the element list."
 PROPS["C05"]["level_text"] += (" History level (Proofs/HistoryProofs.v): clear_log (ctx_reset (clear_log c)) = ctx_new for every c; for every history, whatever the steps before a reset, the steps after it are judged exactly as on a new context (C05_history_after_reset, with the set-aside case stated and the unconditional form refuted); rendering never reads the event log (C05_log_does_not_influence_rendering). Re-proved from the source on every run: Reset's body touches every field classified as cleared or truncated, and every setter block leaves exactly one live representation in a slot. "
